@@ -17,7 +17,7 @@ def judge (input impl : String) : String × String × String :=
     | some o, some m =>
       let (r, s) := expected o m
       -- the line-by-line validator model must agree with the claims-level reading of "has an undefined member"
-      let s2 := if r == "acc" then (if Strict.strictOk (definedFor m) (withoutProof m) then "acc" else "rej") else s
+      let s2 := if r == "acc" && !lostProofCtx o m then (if Strict.strictOk (definedFor m) (withoutProof m) then "acc" else "rej") else s
       let line := s!"sign=ok base=acc res={r} strict={s} applied={get "applied"}"
       let modelCol := if s2 != s then s!"validator model says strict={s2}, claims model strict={s}"
         else if line == head then "=" else line
